@@ -177,6 +177,67 @@ async def _resume_on_fresh_instance(seed):
     return dict(spec=spec, obs=obs, want=want, layout=layout)
 
 
+async def _late_registration(seed, disable_validation):
+    """a step or a @catch_error handler is registered on the workflow CLASS (Workflow.add_step / @step(workflow=...)) after
+    the instance was created and before its first run; a step then exhausts its retries.  Returns (outcome, handler entries)."""
+    import asyncio
+    from workflows import Context, Workflow, catch_error, step
+    from workflows.events import Event, StartEvent, StepFailedEvent, StopEvent
+    rng = random.Random(seed)
+    variant = rng.choice(["late-scoped", "late-step-under-wildcard", "late-scoped-beats-wildcard"])
+    entered = []
+
+    class Mid(Event):
+        pass
+
+    if variant == "late-step-under-wildcard":
+        class Flow(Workflow):
+            @step
+            async def first(self, ev: StartEvent) -> Mid:
+                return Mid()
+
+            @catch_error
+            async def fallback(self, ctx: Context, ev: StepFailedEvent) -> StopEvent:
+                entered.append(("fallback", ev.step_name))
+                return StopEvent(result="wildcard")
+        wf = Flow(timeout=50, disable_validation=disable_validation, skip_graph_checks={"dead_end", "terminal_event"})
+
+        @step(workflow=Flow)
+        async def second(ev: Mid) -> StopEvent:
+            raise ValueError("second failed")
+        want = ("wildcard", [("fallback", "second")])
+    else:
+        if variant == "late-scoped":
+            class Flow(Workflow):
+                @step
+                async def work(self, ev: StartEvent) -> StopEvent:
+                    raise ValueError("work failed")
+        else:
+            class Flow(Workflow):
+                @step
+                async def work(self, ev: StartEvent) -> StopEvent:
+                    raise ValueError("work failed")
+
+                @catch_error
+                async def fallback(self, ctx: Context, ev: StepFailedEvent) -> StopEvent:
+                    entered.append(("fallback", ev.step_name))
+                    return StopEvent(result="wildcard")
+        wf = Flow(timeout=50, disable_validation=disable_validation)
+
+        @catch_error(for_steps=["work"])
+        async def rescue(ctx: Context, ev: StepFailedEvent) -> StopEvent:
+            entered.append(("rescue", ev.step_name))
+            return StopEvent(result="scoped")
+        Flow.add_step(rescue)
+        want = ("scoped", [("rescue", "work")])
+    try:
+        res = await asyncio.wait_for(wf.run(), 100)
+        got = (res, list(entered))
+    except Exception as ex:  # noqa: BLE001
+        got = ("raised %s: %s" % (type(ex).__name__, ex), list(entered))
+    return variant, want, got
+
+
 def run(ctx):
     ctx.rule = ("L0: random @catch_error layouts (scoped/wildcard/none, unknown targets, handler targets, double claims, bad "
                 "max_recoveries) through the real _collect_catch_error_handlers vs Model/Handlers.v; L1: failed-result "
@@ -271,6 +332,28 @@ def run(ctx):
             break
     ctx.programs += nr
     ctx.suite("engine.resume_on_fresh_instance", runs=nr, routed_to_owner=routed)
+    # steps / handlers registered on the class after the instance exists, with and without validation
+    nl, late_ok = ctx.n(12, 120), 0
+    for i in range(nl):
+        seed = rng.randrange(1 << 30)
+        bad = None
+        for dv in (False, True):
+            variant, want, got = vloop.run(_late_registration(seed, dv))
+            ctx.count(1, ("late-registration", variant, dv))
+            if got != want:
+                bad = (dv, variant, want, got)
+        if bad is None:
+            late_ok += 1
+        else:
+            dv, variant, want, got = bad
+            ctx.violation("C08 fails on the real engine: %s registered on the workflow class after the instance was created "
+                          "(disable_validation=%s): the exhausted failure ended as %r with handler entries %s; its owner gives %r / %s"
+                          % (variant, dv, got[0], got[1], want[0], want[1]),
+                          dict(kind="implementation-monitor/L2", input=dict(template="late registration: " + variant, seed=seed,
+                                                                             disable_validation=dv)))
+            break
+    ctx.programs += 2 * nl
+    ctx.suite("engine.late_registration", runs=nl, routed_to_owner=late_ok)
 
 
 def replay(ctx, path):
